@@ -328,7 +328,11 @@ func (tx *Transaction) Collection(idx variables.RuleVariable) collection.Collect
 func (tx *Transaction) Interrupt(interruption *types.Interruption) {
 	switch tx.RuleEngine {
 	case types.RuleEngineOn:
-		tx.interruption = interruption
+		// The first interruption is final: a disruptive rule of the logging phase (the only
+		// rules that still run afterwards) must not replace it.
+		if tx.interruption == nil {
+			tx.interruption = interruption
+		}
 	case types.RuleEngineDetectionOnly:
 		// In DetectionOnly mode, the interruption is not actually triggered, which means that
 		// further rules will continue to be evaluated and more actions can be executed.
@@ -951,6 +955,11 @@ func remainingBodyBytes(limit, buffered int64) int64 {
 // it returns an interruption if the writing bytes go beyond the request body limit.
 // It won't copy the bytes if the body access isn't accessible.
 func (tx *Transaction) WriteRequestBody(b []byte) (*types.Interruption, int, error) {
+	if tx.interruption != nil {
+		// already interrupted: nothing more is buffered and the same interruption is reported
+		return tx.interruption, 0, nil
+	}
+
 	if tx.IsRuleEngineOff() {
 		return nil, 0, nil
 	}
@@ -1016,6 +1025,11 @@ type ByteLenger interface {
 // it returns an interruption if the writing bytes go beyond the request body limit.
 // It won't read the reader if the body access isn't accessible.
 func (tx *Transaction) ReadRequestBodyFrom(r io.Reader) (*types.Interruption, int, error) {
+	if tx.interruption != nil {
+		// already interrupted: nothing more is buffered and the same interruption is reported
+		return tx.interruption, 0, nil
+	}
+
 	if tx.IsRuleEngineOff() {
 		return nil, 0, nil
 	}
@@ -1228,6 +1242,11 @@ func (tx *Transaction) IsResponseBodyProcessable() bool {
 // it returns an interruption if the writing bytes go beyond the response body limit.
 // It won't copy the bytes if the body access isn't accessible.
 func (tx *Transaction) WriteResponseBody(b []byte) (*types.Interruption, int, error) {
+	if tx.interruption != nil {
+		// already interrupted: nothing more is buffered and the same interruption is reported
+		return tx.interruption, 0, nil
+	}
+
 	if tx.IsRuleEngineOff() {
 		return nil, 0, nil
 	}
@@ -1279,6 +1298,11 @@ func (tx *Transaction) WriteResponseBody(b []byte) (*types.Interruption, int, er
 // it returns an interruption if the writing bytes go beyond the response body limit.
 // It won't read the reader if the body access isn't accessible.
 func (tx *Transaction) ReadResponseBodyFrom(r io.Reader) (*types.Interruption, int, error) {
+	if tx.interruption != nil {
+		// already interrupted: nothing more is buffered and the same interruption is reported
+		return tx.interruption, 0, nil
+	}
+
 	if tx.IsRuleEngineOff() {
 		return nil, 0, nil
 	}
